@@ -69,11 +69,11 @@ Proof. unfold guarded, gen_literal_requires. first [exact I|vmr]. Qed.
 Theorem negate_class_ok : guarded gen_negate_class (fun c => k_not = c).
 Proof. unfold guarded, gen_negate_class. first [exact I|vmr]. Qed.
 
-Theorem readable_is_the_tuple : guarded gen_readable (fun l => forall strip has_comma tolist is_bracket is_digits n,
-  cond_tuple strip has_comma tolist is_bracket is_digits n = None <-> mem (d_name (node_def n)) l = false).
+Theorem readable_is_the_tuple : guarded gen_readable (fun l => forall strip has_comma tolist is_bracket is_digits render n,
+  cond_tuple strip has_comma tolist is_bracket is_digits render n = None <-> mem (d_name (node_def n)) l = false).
 Proof.
   unfold guarded, gen_readable. try exact I.
-  all: intros strip has_comma tolist is_bracket is_digits n. all: unfold cond_tuple, is_named. all: cbn [mem]. all: names.
+  all: intros strip has_comma tolist is_bracket is_digits render n. all: unfold cond_tuple, is_named. all: cbn [mem]. all: names.
   all: repeat match goal with |- context [beq ?x ?k] => destruct (beq x k) end; cbn; split; intro H;
     first [reflexivity | discriminate H].
 Qed.
